@@ -69,6 +69,12 @@ impl Acc {
     pub fn violation(&mut self, key: impl Into<String>, what: impl Into<String>, replay: J) {
         self.n_violations += 1;
         let key = key.into();
+        // screening mode for mutation campaigns (tools/automutate.py): stop at the first violation. Never set by ./check.
+        if std::env::var_os("VERIF_FAIL_FAST").is_some() {
+            let what: String = what.into();
+            out!("FAILFAST violation key=[{}] what: {}", key, what.chars().take(400).collect::<String>());
+            std::process::exit(1);
+        }
         // keep one representative per key, up to the cap
         if self.violations.iter().any(|v| v.key == key) {
             return;
